@@ -5,6 +5,14 @@ ROOT = os.path.dirname(os.path.dirname(os.path.abspath(__file__)))
 
 CLAIMED = {
     # id: (technique, level text, level note, design ref)
+    "C01": ("CrossHair/z3 symbolic execution of the real UDP serializer/deserializer on harnesses generated from the live "
+            "message template (one per template): symbolic integer fields over full wire ranges, symbolic payload bytes, block "
+            "counts, packet id, acks, extra, flags; field-by-field round trip + template-derived datagram length oracle",
+            "Bounded symbolic model checking per template: all values of the symbolic fields within the stated bounds are "
+            "covered by path-exhaustive exploration (z3 per path); floats/UUIDs/IPs from catalogues.",
+            "Trusted: CrossHair + z3 + struct.Struct patch; zero-coding replaced by identity except in zerocoded_real "
+            "(justified by C03); JankStringyBytes replaced by bytes except in jank_bytes_catalogue; maybe_reload_templates stubbed.",
+            "DESIGN.md §1 C01"),
     "C03": ("CrossHair/z3 path-exhaustive symbolic execution of the real encoder/decoder loop bodies: one-step "
             "inductive lemmas from an arbitrary loop state (all lengths) + bounded whole-function equivalence",
             "Bounded symbolic model checking: every (state, byte) step of the real loops is decided by z3 for all values; "
